@@ -150,7 +150,82 @@ fn join(ev: &[String]) -> String {
     }
 }
 
+/// the crate's own `VisitMut` client: `toml::to_string_pretty` runs `DocumentFormatter` over the whole document. If its walk
+/// is complete, EVERY array in value position has the layout its length calls for: two or more elements -> one per line,
+/// trailing comma; fewer -> on one line. `F <hex document>` -> `fmt=ok` / `fmt=BAD:<path>…` / `err`.
+fn fmt_arrays(v: &Value, path: &str, bad: &mut Vec<String>) {
+    match v {
+        Value::Array(a) => {
+            let multiline = a.len() >= 2;
+            let prefix_ok = a.iter().all(|e| {
+                let p = e.decor().prefix().and_then(|r| r.as_str()).unwrap_or("");
+                if multiline {
+                    p == "\n    "
+                } else {
+                    !p.contains('\n')
+                }
+            });
+            let trailing = a.trailing().as_str().unwrap_or("");
+            if !(prefix_ok && a.trailing_comma() == multiline && (trailing == "\n") == multiline) {
+                bad.push(format!("{path}:len{}", a.len()));
+            }
+            for (i, e) in a.iter().enumerate() {
+                fmt_arrays(e, &format!("{path}/{i}"), bad);
+            }
+        }
+        Value::InlineTable(t) => {
+            for (k, e) in t.iter() {
+                fmt_arrays(e, &format!("{path}/{}", hex(k.as_bytes())), bad);
+            }
+        }
+        _ => {}
+    }
+}
+fn fmt_tables(t: &Table, path: &str, bad: &mut Vec<String>) {
+    for (k, i) in t.iter() {
+        let p = format!("{path}/{}", hex(k.as_bytes()));
+        match i {
+            Item::Value(v) => fmt_arrays(v, &p, bad),
+            Item::Table(s) => fmt_tables(s, &p, bad),
+            Item::ArrayOfTables(a) => {
+                for (n, s) in a.iter().enumerate() {
+                    fmt_tables(s, &format!("{p}/{n}"), bad);
+                }
+            }
+            Item::None => {}
+        }
+    }
+}
+fn run_fmt(text: &str) -> String {
+    let table = match text.parse::<toml::Table>() {
+        Ok(t) => t,
+        Err(_) => return "err".into(),
+    };
+    let pretty = match toml::to_string_pretty(&table) {
+        Ok(p) => p,
+        Err(_) => return "ser-err".into(),
+    };
+    let doc = match pretty.parse::<DocumentMut>() {
+        Ok(d) => d,
+        Err(_) => return format!("fmt=BAD:reparse:{}", hex(pretty.as_bytes())),
+    };
+    let mut bad = vec![];
+    fmt_tables(doc.as_table(), "", &mut bad);
+    if bad.is_empty() {
+        "fmt=ok".into()
+    } else {
+        bad.truncate(4);
+        format!("fmt=BAD:{} text={}", bad.join(","), hex(pretty.as_bytes()))
+    }
+}
+
 pub fn run(line: &str) -> String {
+    if let Some(rest) = line.strip_prefix("F ") {
+        return match std::str::from_utf8(&unhex(rest)) {
+            Ok(t) => run_fmt(t),
+            Err(_) => "err".into(),
+        };
+    }
     let bytes = unhex(line);
     let text = match std::str::from_utf8(&bytes) {
         Ok(t) => t,
